@@ -111,10 +111,19 @@ def replay_emitted(ctx, res, alphabets, classify=default_classify, every=1, thin
         ctx.note(f"{res.cfg}: {len(docs)} behaviours emitted, seeded sample of {budget} replayed")
         docs = ctx.rng.sample(docs, budget)
         ctx.exhaustive_replay = False
+    prev = None
     for doc in docs:
         if not isinstance(doc, dict) or "inp" not in doc:
             continue
         n += 1
+        if prev is not None and n % 7 == 0:
+            # interleaved repetition: an earlier call repeated after other calls must still give its own answer
+            # (result caches keyed on too little, state left behind by another configuration)
+            bad, _ = nc.compare_case(prev[0], letters=prev[1], api=prev[2])
+            for ev, clause, detail in bad:
+                ctx.violation(classify(prev[0]["inp"], clause) + "/after-other-calls",
+                              f"{describe(prev[0]['inp'], prev[1], prev[2])} repeated after {describe(doc['inp'], alphabets[0], None)[:120]}: {ev}:{clause} {detail}",
+                              dict(kind="replay", doc=prev[0], letters=prev[1], api=prev[2]))
         if every > 1 and n % every:
             continue
         inp = doc["inp"]
@@ -129,6 +138,7 @@ def replay_emitted(ctx, res, alphabets, classify=default_classify, every=1, thin
             for ev, clause, detail in bad:
                 ctx.violation(classify(inp, clause), f"{describe(inp, letters, api)} {ev}:{clause} {detail}",
                               dict(kind="replay", doc=doc, letters=letters, api=api))
+            prev = (doc, letters, api)
         ctx.traces += 1
     if drift_seen:
         ctx.note(f"internal-state drift on {drift_seen} replayed behaviours (not a violation)")
